@@ -20,7 +20,7 @@ import (
 
 var c19Sigma = []string{"a", "A", "s", ".", "k", "1", "é", "É", "\u017f", "\u212a"} // long s (U+017F) folds with s/S, Kelvin sign (U+212A) with k/K: fold partners of different UTF-8 length
 
-var c19Atoms = []string{"a", "A", ".", `\.`, `\w`, `\W`, `\d`, `\D`, `\s`, `\S`, `\b`, `\B`, "[A-Z]", "[^a-z]", "^", "$", "|", "a*", "(A|b)", "(?i)", "(?-i:A)", "(?:a|B)", `\pL`, `\p{Lu}`, `\PL`, `\x41`, `\QA.b\E`, "A{2}", "é", "[[:upper:]]", `\p{Greek}`, "k"}
+var c19Atoms = []string{"a", "A", ".", `\.`, `\w`, `\W`, `\d`, `\D`, `\s`, `\S`, `\b`, `\B`, "[A-Z]", "[^a-z]", "^", "$", "|", "a*", "(A|b)", "(?i)", "(?-i:A)", "(?:a|B)", "^a|k$", "^A$", `^A\.b$`, `\pL`, `\p{Lu}`, `\PL`, `\x41`, `\QA.b\E`, "A{2}", "é", "[[:upper:]]", `\p{Greek}`, "k"}
 
 func stringsOver(sigma []string, maxLen int) []string {
 	out := []string{""}
